@@ -340,8 +340,8 @@ func c07Gen(g *core.Gen) {
 	// a slice of the small grid on the non-SSSE3 dispatch path (shards long enough for the bulk kernels)
 	for _, kind := range []string{"cauchy", "vandermonde"} {
 		for _, dp := range [][2]int{{3, 2}, {5, 4}, {6, 5}} {
-			for _, l := range []int{2, 30, 32, 34, 66, 130} {
-				for _, gg := range []int{1, 3} {
+			for _, l := range []int{2, 30, 32, 34, 38, 66, 70, 130, 1000} {
+				for _, gg := range []int{1, 2, 3, 5, 16} {
 					g.Emit(&c07Case{Kind: "small", Coder: kind, D: dp[0], P: dp[1], Len: l, G: gg, NoSSSE3: true})
 				}
 			}
